@@ -1,6 +1,6 @@
 /* proof unit for ec_make and ec_exec of /repo/ex.c (":make", ":!").
  * MECHANICAL EXTRACTION (redone on every run by run.py, unit key "extract"): ex.c's preprocessor
- * lines, the verbatim text of ec_make and ec_exec, and a prototype for every other static function
+ * lines, the verbatim text of the functions named in the unit (ec_make, ec_exec, ec_print, ec_rs), and a prototype for every other static function
  * (bodies dropped); everything else of ex.c is dropped.  sprintf / snprintf (variadic) are routed to
  * three-argument stubs that check the destination against the length of what is formatted. */
 #include "pre.h"
@@ -10,6 +10,7 @@ static int verif_snprintf4(char *s, unsigned long n, const char *fmt, const char
 #define sprintf(s, f, a) verif_sprintf3(s, f, a)
 #define snprintf(s, n, f, a) verif_snprintf4(s, n, f, a)
 extern int xwa;
+extern int xvis;
 #include EXTRACT_FILE
 #define STRLEN_HOOK
 static long strlen_hook(const char *s);
